@@ -1186,6 +1186,26 @@ pub fn pump_family(rep: &mut Report, mode: Mode, tier: Tier) {
                 b.extend_from_slice(bad);
                 b.extend_from_slice(b"\"]");
                 texts.push(b);
+                // two defects in one long input, in both orders and at both ends: the first one
+                // must be reported (whole-input pre-validation reports the ill-formed byte even
+                // when a syntax error comes first)
+                let mut b = format!("[\"{body}\" x, \"").into_bytes();
+                b.extend_from_slice(bad);
+                b.extend_from_slice(b"\"]");
+                texts.push(b);
+                let mut b = b"[1 \x01, \"".to_vec();
+                b.extend_from_slice(body.as_bytes());
+                b.extend_from_slice(bad);
+                b.extend_from_slice(b"\"]");
+                texts.push(b);
+                let mut b = b"[\"".to_vec();
+                b.extend_from_slice(bad);
+                b.extend_from_slice(format!("{body}\", x]").as_bytes());
+                texts.push(b);
+                let mut b = format!("[\"{body}\u{1}").into_bytes();
+                b.extend_from_slice(bad);
+                b.extend_from_slice(b"\"]");
+                texts.push(b);
             }
         }
         for b in texts {
@@ -1264,7 +1284,11 @@ pub fn pump_family(rep: &mut Report, mode: Mode, tier: Tier) {
 /// Whitespace variants between any two tokens (C05): documents from a small token grammar
 /// with each of the four JSON whitespace characters inserted at every token boundary.
 pub fn whitespace_family(rep: &mut Report, mode: Mode) {
-    let docs: [&[&str]; 8] = [
+    let docs: [&[&str]; 12] = [
+        &["{", "\"a\"", ":", "{", "\"b\"", ":", "1", "}", "}"],
+        &["{", "\"a\"", ":", "{", "\"b\"", ":", "[", "1", "]", "}", ",", "\"c\"", ":", "[", "{", "\"d\"", ":", "2", "}", "]", "}"],
+        &["[", "{", "\"a\"", ":", "[", "1", ",", "2", "]", "}", ",", "[", "[", "3", "]", "]", "]"],
+        &["{", "\"k\"", ":", "\"v\"", ",", "\"k\"", ":", "-0.5e1", ",", "\"l\"", ":", "null", "}"],
         &["[", "]"],
         &["{", "}"],
         &["[", "1", ",", "\"a\"", "]"],
